@@ -14,6 +14,7 @@ import (
 	"os"
 	"path/filepath"
 	"strconv"
+	"syscall"
 	"time"
 )
 
@@ -63,6 +64,7 @@ func main() {
 		}
 	}
 	code := 2
+	go scratchWatchdog(scratch)
 	defer func() {
 		if os.Getenv("VERIF_KEEP") == "" {
 			os.RemoveAll(scratch)
@@ -245,4 +247,21 @@ func replayFile(path string) int {
 	}
 	fmt.Printf("VIOLATION property=%s replay=%s\n  rejected at line %d: %s\n", v.Prop, path, line, ev)
 	return 1
+}
+
+// scratchWatchdog: the scratch directory lives in RAM (/dev/shm). A run that fills it would take the machine's
+// memory (and other runs' TLC processes) with it: give up early instead - an infrastructure failure, never a verdict.
+func scratchWatchdog(scratch string) {
+	for {
+		time.Sleep(3 * time.Second)
+		var st syscall.Statfs_t
+		if err := syscall.Statfs(scratch, &st); err != nil {
+			continue
+		}
+		if free := st.Bavail * uint64(st.Bsize); free < 5<<30 {
+			fmt.Fprintf(os.Stderr, "INFRA: less than 5 GiB left on the scratch file system (%s): giving up\n", scratch)
+			os.RemoveAll(scratch)
+			os.Exit(2)
+		}
+	}
 }
